@@ -59,3 +59,49 @@ func VerifC14bSimultaneousEnds(k int) {
 	cancel()
 	verifrt.Reach("done")
 }
+
+// VerifC14cManyOpen: k connections are opened one after another and stay open,
+// with MaxConnections = max: each of the first max is served (whatever the
+// number of CPUs or anything else of the machine), every further one is turned
+// away; when all have ended the count is 0.
+func VerifC14cManyOpen(k, max int) {
+	dlog.VerifInstall(source.Server)
+	config.Server.MaxConnections = max
+	config.Server.Schedule, config.Server.Continuous = nil, nil
+	config.Server.Permissions = config.Permissions{Default: []string{"^/.*$"}}
+	c14Authenticated = map[int]bool{}
+	s := &Server{catLimiter: make(chan struct{}, 2), tailLimiter: make(chan struct{}, 2), sshServerConfig: &gossh.ServerConfig{}}
+	ctx, cancel := context.WithCancel(context.Background())
+	l := &c14Listener{incoming: make(chan net.Conn)}
+	go s.listenerLoop(ctx, l)
+	var conns []*c14Conn
+	for i := 0; i < k; i++ {
+		c := &c14Conn{id: i, kind: c14OneShell, closed: make(chan struct{}), chans: make(chan gossh.NewChannel, 2)}
+		conns = append(conns, c)
+		delivered := false
+		select {
+		case l.incoming <- c:
+			delivered = true
+		case <-time.After(5 * time.Second):
+		}
+		verifrt.Assert(delivered, "the server stopped accepting connections although fewer than MaxConnections are open")
+		verifrt.Sleep(time.Second)
+		if i < max {
+			verifrt.Assert(c14Authenticated[i], "a connection was not served although fewer than MaxConnections are open")
+			c14Drive(c)
+			verifrt.Sleep(time.Second)
+			verifrt.Assert(s.stats.currentConnections == i+1, "the reported number of open connections differs from the number actually open")
+		} else {
+			verifrt.Assert(!c14Authenticated[i], "a connection was served beyond MaxConnections")
+		}
+	}
+	for _, c := range conns {
+		c.Close()
+		close(c.chans)
+		verifrt.Sleep(time.Second)
+	}
+	verifrt.Sleep(3 * time.Second)
+	verifrt.Assert(s.stats.currentConnections == 0, "slots are still taken after all connections ended")
+	cancel()
+	verifrt.Reach("done")
+}
